@@ -187,6 +187,8 @@ export tonumb = |s, b|
   catch e
     (1, '{e}')
 export size_of = |s| size s
+export mkobj1 = |d| {@display: || d}
+export mkobj2 = |d, g| {@display: || d, @debug: || g}
 "#,
     );
     for n in 2..=16 {
@@ -260,6 +262,8 @@ struct Out {
 fn classify_err(msg: &str) -> String {
     if msg.contains("too large") {
         "E:toolarge".into()
+    } else if msg.contains("only supported for integers") {
+        "E:repr".into()
     } else if msg.contains("invalid UTF-8") {
         "E:utf8".into()
     } else if msg.contains("negative indices") {
@@ -462,6 +466,164 @@ fn oracle_range(kind: usize, a: i64, b: i64, len: usize) -> (usize, usize) {
     (s as usize, e as usize)
 }
 
+#[derive(Clone, Debug, PartialEq)]
+enum Expect {
+    Text(String),
+    Error,
+    Unknown,
+}
+
+fn atom_is_number(a: &str) -> bool {
+    a.starts_with('i') || (a.starts_with('f') && a.contains('/'))
+}
+
+fn atom_f64(a: &str) -> Option<f64> {
+    if a.starts_with('f') && a.contains('/') {
+        Some(f64::from_bits(u64::from_str_radix(&a[1..17], 16).ok()?))
+    } else {
+        None
+    }
+}
+
+fn f64_is_i64(v: f64) -> bool {
+    v.is_finite() && v.fract() == 0.0 && v >= -9223372036854775808.0 && v < 9223372036854775808.0
+}
+
+fn int_in_f64_range(n: i64) -> bool {
+    (n as f64 as i64) == n
+}
+
+/// display text of a float as KNumber prints it
+fn float_display(v: f64) -> String {
+    if v.fract() == 0.0 { format!("{v:.1}") } else { format!("{v}") }
+}
+
+fn simple_text(e: &str, dbg: bool) -> String {
+    if e == "null" {
+        "null".into()
+    } else if e == "b0" {
+        "false".into()
+    } else if e == "b1" {
+        "true".into()
+    } else if let Some(i) = e.strip_prefix('i') {
+        i.to_string()
+    } else if let Some(h) = e.strip_prefix('s') {
+        format!("'{}'", String::from_utf8(unhex(h).unwrap()).unwrap())
+    } else if let Some(o) = e.strip_prefix('o') {
+        let (d, g) = o.split_once(';').unwrap();
+        String::from_utf8(unhex(if dbg { g } else { d }).unwrap()).unwrap()
+    } else {
+        panic!("bad element {}", e)
+    }
+}
+
+/// Display / Debug text of a non-number value atom (the language's rules, written down independently)
+fn xval_text(a: &str, dbg: bool) -> String {
+    let list = |s: &str| -> Vec<String> { s.split(',').filter(|x| !x.is_empty()).map(|x| x.to_string()).collect() };
+    if let Some(r) = a.strip_prefix("T[") {
+        format!("({})", list(&r[..r.len() - 1]).iter().map(|e| simple_text(e, dbg)).collect::<Vec<_>>().join(", "))
+    } else if let Some(r) = a.strip_prefix("L[") {
+        format!("[{}]", list(&r[..r.len() - 1]).iter().map(|e| simple_text(e, dbg)).collect::<Vec<_>>().join(", "))
+    } else if let Some(r) = a.strip_prefix("M[") {
+        let es: Vec<String> = list(&r[..r.len() - 1])
+            .iter()
+            .map(|kv| {
+                let (k, e) = kv.split_once('=').unwrap();
+                format!("{}: {}", String::from_utf8(unhex(k).unwrap()).unwrap(), simple_text(e, dbg))
+            })
+            .collect();
+        format!("{{{}}}", es.join(", "))
+    } else if let Some(r) = a.strip_prefix("O[") {
+        let (d, g) = r[..r.len() - 1].split_once(',').unwrap();
+        String::from_utf8(unhex(if dbg { g } else { d }).unwrap()).unwrap()
+    } else if let Some(h) = a.strip_prefix('s') {
+        let s = String::from_utf8(unhex(h).unwrap()).unwrap();
+        if dbg { format!("'{}'", s) } else { s }
+    } else {
+        simple_text(a, dbg)
+    }
+}
+
+/// what the value rendered with precision + representation (no width) must be
+fn expected_rendered(a: &str, fo: &StringFormatOptions) -> Expect {
+    use koto_parser::StringFormatRepresentation::*;
+    let p = fo.precision.map(|p| p as usize);
+    if let Some(v) = atom_f64(a) {
+        return match fo.representation {
+            None | Some(Debug) => Expect::Text(match p {
+                Some(p) => format!("{v:.p$}"),
+                None => float_display(v),
+            }),
+            Some(ExpLower) => Expect::Text(match p {
+                Some(p) => format!("{v:.p$e}"),
+                None => format!("{v:e}"),
+            }),
+            Some(ExpUpper) => Expect::Text(match p {
+                Some(p) => format!("{v:.p$E}"),
+                None => format!("{v:E}"),
+            }),
+            Some(r) => {
+                if f64_is_i64(v) {
+                    let i = v as i64;
+                    Expect::Text(match r {
+                        HexLower => format!("{i:x}"),
+                        HexUpper => format!("{i:X}"),
+                        Binary => format!("{i:b}"),
+                        _ => format!("{i:o}"),
+                    })
+                } else {
+                    Expect::Error
+                }
+            }
+        };
+    }
+    if let Some(i) = a.strip_prefix('i') {
+        let n: i64 = i.parse().unwrap();
+        let via_f64 = int_in_f64_range(n);
+        return Expect::Text(match (fo.representation, p) {
+            (None | Some(Debug), Some(p)) if via_f64 => format!("{:.p$}", n as f64),
+            (None | Some(Debug), _) => n.to_string(),
+            (Some(ExpLower), Some(p)) if via_f64 => format!("{:.p$e}", n as f64),
+            (Some(ExpUpper), Some(p)) if via_f64 => format!("{:.p$E}", n as f64),
+            (Some(ExpLower), _) => format!("{n:e}"),
+            (Some(ExpUpper), _) => format!("{n:E}"),
+            (Some(HexLower), _) => format!("{n:x}"),
+            (Some(HexUpper), _) => format!("{n:X}"),
+            (Some(Binary), _) => format!("{n:b}"),
+            (Some(Octal), _) => format!("{n:o}"),
+        });
+    }
+    // every other kind: Display (Debug for `?`), cut to `precision` grapheme clusters
+    let text = xval_text(a, fo.representation == Some(Debug));
+    Expect::Text(match p {
+        Some(p) => text.graphemes(true).take(p).collect::<String>(),
+        None => text,
+    })
+}
+
+fn radix_of_truncated(a: &str, fo: &StringFormatOptions) -> Option<String> {
+    use koto_parser::StringFormatRepresentation::*;
+    let i = atom_f64(a)? as i64;
+    Some(match fo.representation? {
+        HexLower => format!("{i:x}"),
+        HexUpper => format!("{i:X}"),
+        Binary => format!("{i:b}"),
+        Octal => format!("{i:o}"),
+        _ => return None,
+    })
+}
+
+fn float_atom(v: f64) -> String {
+    let (digits, exp) = if v.is_finite() {
+        let s = format!("{:e}", v.abs());
+        let (m, e) = s.split_once('e').unwrap();
+        (m.replace('.', ""), e.parse::<i64>().unwrap())
+    } else {
+        (String::new(), 0)
+    };
+    format!("f{:016x}/{}/{}", v.to_bits(), hex(digits.as_bytes()), exp)
+}
+
 struct Ctx {
     rt: Rt,
     rep: Report,
@@ -474,6 +636,7 @@ struct Ctx {
     facts_line: String,
     samples_by_op: BTreeMap<String, u32>,
     seg_inconsistent: u64,
+    cur_atom: String,
     t_phase: std::time::Instant,
     t_exec: f64,
     t_model: f64,
@@ -637,40 +800,12 @@ impl Ctx {
                 }
             }
             "fmtf" => {
+                // old corpus syntax: `fmtf <xopts> f<bits>` — now an ordinary fmt case with a float value
                 let opts = String::from_utf8(unhex(toks[1]).unwrap()).unwrap();
                 out.nontrivial = !opts.is_empty();
                 let bits = u64::from_str_radix(toks[2].trim_start_matches('f'), 16).unwrap();
-                let v = f64::from_bits(bits);
-                match self.rt.fmt_fn(&opts) {
-                    Err(e) => {
-                        if e.starts_with("PANIC") {
-                            out.panic = Some(e);
-                            "PANIC".to_string()
-                        } else {
-                            "SKIP".to_string()
-                        }
-                    }
-                    Ok(f) => {
-                        let val: KValue = v.into();
-                        match self.rt.callv(f, &[val.clone()]) {
-                            Err(e) => {
-                                if e.starts_with("PANIC") {
-                                    out.panic = Some(e.clone());
-                                }
-                                fail_line(&e)
-                            }
-                            Ok(r) => {
-                                let _ = canon(&r, &mut out.invalid);
-                                if let (Ok(Ok((fo, fill))), Some(res)) = (Self::real_parse_opts(&opts), str_bytes(&r)) {
-                                    if let Ok(res) = String::from_utf8(res) {
-                                        self.check_width(&opts, &fo, fill.as_deref(), &val, &res, &mut out);
-                                    }
-                                }
-                                "F".to_string()
-                            }
-                        }
-                    }
-                }
+                let atom = float_atom(f64::from_bits(bits));
+                self.exec_fmt(&opts, &atom, &mut out)
             }
             "tonum" | "tonumb" => {
                 let s = String::from_utf8(unhex(toks[1]).unwrap()).unwrap();
@@ -1376,7 +1511,7 @@ impl Ctx {
         }
     }
 
-    fn val_of(v: &str) -> KValue {
+    fn simple_of(&mut self, v: &str) -> KValue {
         if v == "null" {
             KValue::Null
         } else if v == "b0" {
@@ -1387,8 +1522,51 @@ impl Ctx {
             i.parse::<i64>().unwrap().into()
         } else if let Some(h) = v.strip_prefix('s') {
             Rt::kstr(std::str::from_utf8(&unhex(h).unwrap()).unwrap())
+        } else if let Some(o) = v.strip_prefix('o') {
+            let (d, g) = o.split_once(';').expect("object element");
+            self.obj_of(d, g)
         } else {
             panic!("bad value {}", v)
+        }
+    }
+
+    /// a map with `@display` (and `@debug` when the two texts differ) that return the given texts
+    fn obj_of(&mut self, d: &str, g: &str) -> KValue {
+        let ds = String::from_utf8(unhex(d).unwrap()).unwrap();
+        let gs = String::from_utf8(unhex(g).unwrap()).unwrap();
+        let r = if ds == gs {
+            self.rt.call("mkobj1", &[Rt::kstr(&ds)])
+        } else {
+            self.rt.call("mkobj2", &[Rt::kstr(&ds), Rt::kstr(&gs)])
+        };
+        r.expect("object value")
+    }
+
+    fn val_of(&mut self, v: &str) -> KValue {
+        let list = |s: &str| -> Vec<String> { s.split(',').filter(|x| !x.is_empty()).map(|x| x.to_string()).collect() };
+        if v.starts_with('f') && v.contains('/') {
+            let bits = u64::from_str_radix(&v[1..17], 16).unwrap();
+            f64::from_bits(bits).into()
+        } else if let Some(r) = v.strip_prefix("T[") {
+            let xs: Vec<KValue> = list(&r[..r.len() - 1]).iter().map(|e| self.simple_of(e)).collect();
+            KValue::Tuple(KTuple::from(xs))
+        } else if let Some(r) = v.strip_prefix("L[") {
+            let xs: Vec<KValue> = list(&r[..r.len() - 1]).iter().map(|e| self.simple_of(e)).collect();
+            KValue::List(KList::from_slice(&xs))
+        } else if let Some(r) = v.strip_prefix("M[") {
+            let m = KMap::new();
+            for kv in list(&r[..r.len() - 1]) {
+                let (k, e) = kv.split_once('=').expect("map entry");
+                let key = String::from_utf8(unhex(k).unwrap()).unwrap();
+                let val = self.simple_of(e);
+                m.insert(key.as_str(), val);
+            }
+            KValue::Map(m)
+        } else if let Some(r) = v.strip_prefix("O[") {
+            let (d, g) = r[..r.len() - 1].split_once(',').expect("object");
+            self.obj_of(d, g)
+        } else {
+            self.simple_of(v)
         }
     }
 
@@ -1412,13 +1590,23 @@ impl Ctx {
                 return format!("E:fmt:{}", kind);
             }
         };
-        let val = Self::val_of(v);
+        let val = self.val_of(v);
+        self.cur_atom = v.to_string();
         match self.rt.callv(f, &[val.clone()]) {
             Err(e) => {
                 if e.starts_with("PANIC") {
                     out.panic = Some(e.clone());
                 }
-                fail_line(&e)
+                let l = fail_line(&e);
+                // (D) a runtime error is only right for a radix representation on a float that is not an i64
+                let expect_err = match Self::real_parse_opts(opts) {
+                    Ok(Ok((fo, _))) => matches!(expected_rendered(v, &fo), Expect::Error),
+                    _ => false,
+                };
+                if !expect_err && !e.starts_with("PANIC") {
+                    out.d_fail.push(("format:error".into(), format!("options {:?} value {}: unexpected error {}", opts, v, e)));
+                }
+                l
             }
             Ok(r) => {
                 let l = canon(&r, &mut out.invalid);
@@ -1458,25 +1646,34 @@ impl Ctx {
             Ok(KValue::Str(s)) => s.as_str().to_string(),
             _ => return,
         };
-        if let KValue::Number(KNumber::F64(v)) = val {
-            // (D) floats: `?`, `e`, `E` (documented for numbers in general) must keep the value: the text
-            // parses back to exactly the float. Radix representations are documented for integers only.
-            use koto_parser::StringFormatRepresentation::*;
-            if let Some(r @ (Debug | ExpLower | ExpUpper)) = fo.representation {
-                let back = rendered.parse::<f64>().ok();
-                if back != Some(*v) && !(v.is_nan() && back.is_some_and(|b| b.is_nan())) {
-                    let i = *v as i64;
-                    let truncated = match r {
-                        Debug => format!("{i:?}"),
-                        ExpLower => format!("{i:e}"),
-                        _ => format!("{i:E}"),
-                    };
-                    if rendered == truncated {
-                        out.attributed.push(("F-C15-7".into(), format!("options {:?}: float {:?} rendered as the truncated integer {:?}", opts, v, rendered)));
-                    } else {
-                        out.d_fail.push(("format:float-value".into(), format!("options {:?}: float {:?} rendered as {:?}", opts, v, rendered)));
+        // (D) the rendered value itself, from an oracle on Rust std that knows nothing of koto's dispatch
+        {
+            let atom = self.cur_atom.clone();
+            match expected_rendered(&atom, fo) {
+                Expect::Text(want) => {
+                    if rendered != want {
+                        let mut no_prec = *fo;
+                        no_prec.precision = None;
+                        let legacy = expected_rendered(&atom, &no_prec);
+                        use koto_parser::StringFormatRepresentation::*;
+                        let prec_and_repr = fo.precision.is_some() && matches!(fo.representation, Some(Debug | ExpLower | ExpUpper));
+                        if prec_and_repr && atom_is_number(&atom) && legacy == Expect::Text(rendered.clone()) {
+                            out.attributed.push(("F-C15-15".into(), format!("options {:?} value {}: {:?} — the precision is dropped, expected {:?}", opts, atom, rendered, want)));
+                        } else {
+                            out.d_fail.push(("format:rendered".into(), format!("options {:?} value {}: expected {:?} got {:?}", opts, atom, want, rendered)));
+                        }
                     }
                 }
+                Expect::Error => {
+                    // a radix representation on a float that is not an i64 value: the text of `value as i64`
+                    let trunc = radix_of_truncated(&atom, fo);
+                    if trunc.as_deref() == Some(rendered.as_str()) {
+                        out.attributed.push(("F-C15-16".into(), format!("options {:?} value {}: {:?} is the truncated / saturated integer, not the value", opts, atom, rendered)));
+                    } else {
+                        out.d_fail.push(("format:rendered".into(), format!("options {:?} value {}: expected an error, got {:?}", opts, atom, rendered)));
+                    }
+                }
+                Expect::Unknown => {}
             }
         }
         let glen = rendered.graphemes(true).count();
@@ -1740,7 +1937,7 @@ fn fmt_grid(thorough: bool) -> Vec<String> {
     let aligns = ["", "<", "^", ">"];
     let widths = ["", "0", "1", "2", "3", "4", "5", "6", "05", "03"];
     let precs = ["", ".0", ".2"];
-    let reps = ["", "?", "x", "o", "b", "e"];
+    let reps = ["", "?", "x", "X", "o", "b", "e", "E"];
     let mut v = vec![];
     for f in fills {
         for a in aligns {
@@ -1807,6 +2004,7 @@ fn main() {
         facts_line: facts.clone(),
         samples_by_op: Default::default(),
         seg_inconsistent: 0,
+        cur_atom: String::new(),
         t_phase: std::time::Instant::now(),
         t_exec: 0.0,
         t_model: 0.0,
@@ -2040,11 +2238,20 @@ fn main() {
     cx.phase("format-parse");
 
     // ---- 5. format options: application -------------------------------------------------------------
+    // every value kind x every representation x width / fill / alignment / precision / zero flag
     let mut vals: Vec<String> = vec![];
-    for i in [0i64, 5, -5, 255, 1200, -1200, 1234567, i64::MAX, i64::MIN, (1 << 53) + 1, 1 << 62, 100] {
+    for i in [0i64, 5, -5, 255, -255, 1200, -1200, 1234567, 1250, 25, 995, i64::MAX, i64::MIN, (1 << 53) + 1, 1 << 62, 100] {
         vals.push(format!("i{}", i));
     }
+    for v in [
+        1.5f64, 2.75, -0.5, 1234.5, 0.1, 2.0, -3.0, 255.0, 1e21, -1e21, 1e-7, 123456789.125, 0.125, 2.5, 0.25, 1.23456, 9.99, 9.96e22,
+        0.0, -0.0, 5e-324, f64::MAX, 9223372036854775808.0, -9223372036854775808.0, 0.1 + 0.2, 1e15, 1e16, 123456.0,
+        f64::INFINITY, f64::NEG_INFINITY, f64::NAN,
+    ] {
+        vals.push(float_atom(v));
+    }
     vals.push("b1".into());
+    vals.push("b0".into());
     vals.push("null".into());
     let mut strs: Vec<String> = ["", "a", "é", "ab", "é\u{301}", "字", "😀a", "\u{301}", "a\r\n", "héllo", "\n", "a\u{301}b"].iter().map(|s| s.to_string()).collect();
     if thorough {
@@ -2059,26 +2266,47 @@ fn main() {
     for s in &strs {
         vals.push(format!("s{}", hex(s.as_bytes())));
     }
+    // containers and objects with @display / @debug
+    let hx = |s: &str| hex(s.as_bytes());
+    for v in [
+        "T[]".to_string(),
+        format!("T[i1,s{},null]", hx("a")),
+        format!("T[s{},b1]", hx("é\u{301}")),
+        format!("T[o{};{},i5]", hx("OBJ"), hx("DBG")),
+        "L[]".to_string(),
+        format!("L[i1,s{}]", hx("héllo")),
+        "M[]".to_string(),
+        format!("M[{}=i1,{}=s{}]", hx("a"), hx("b"), hx("x")),
+        format!("O[{},{}]", hx("OBJ"), hx("DBG")),
+        format!("O[{},{}]", hx("héllo"), hx("héllo")),
+        format!("O[{},{}]", hx(""), hx("字字")),
+    ] {
+        vals.push(v);
+    }
     let grid = fmt_grid(thorough);
     for o in &grid {
         for v in &vals {
             let mut tabs = gtab(o);
-            if let Some(h) = v.strip_prefix('s') {
-                let s = String::from_utf8(unhex(h).unwrap()).unwrap();
-                if !seg_consistent(&s) || !seg_consistent(&format!("'{}'", s)) {
+            if !atom_is_number(v) {
+                let (d, g) = (xval_text(v, false), xval_text(v, true));
+                if !seg_consistent(&d) || !seg_consistent(&g) {
                     continue;
                 }
-                tabs.push_str(&format!(" {} {}", gtab(&s), gtab(&format!("'{}'", s))));
+                tabs.push_str(&format!(" {}", gtab(&d)));
+                if g != d {
+                    tabs.push_str(&format!(" {}", gtab(&g)));
+                }
             }
             cx.push(format!("fmt {} {} {}", hex(o.as_bytes()), v, tabs));
         }
     }
-    // floats: representation options must keep the value (never compared as text: parse-back oracle)
-    for o in ["", "?", "e", "E", "x", "b", "o", "8?", "*^12e", ">10E", "06?", ".2", ".0", "9.3"] {
-        for v in [1.5f64, 2.75, -0.5, 1234.5, 0.1, 2.0, -3.0, 1e21, -1e21, 1e-7, 123456789.125, f64::INFINITY, f64::NAN] {
-            cx.push(format!("fmtf {} f{:016x} {}", hex(o.as_bytes()), v.to_bits(), gtab(o)));
-        }
-    }
+    cx.flush();
+    cx.rep.extra.insert(
+        "format_grid".into(),
+        json!({"fill": ["", "*", "é"], "align": ["", "<", "^", ">"], "width": ["", "0", "1", "2", "3", "4", "5", "6", "05", "03"],
+               "precision": ["", ".0", ".2"], "representation": ["", "?", "x", "X", "o", "b", "e", "E"], "option_strings": grid.len(), "values": vals.len(),
+               "value_kinds": "integers (0, negative, i64 limits, 2^53+1), floats (fractional, large, small, negative, -0.0, subnormal, f64::MAX, +-2^63, non-finite), strings, booleans, null, tuples, lists, maps, objects with @display / @debug (also inside a tuple)"}),
+    );
     cx.phase("format-apply");
     cx.rep.extra.insert(
         "format_grid".into(),
